@@ -553,6 +553,11 @@ void World::CheckCycles(const InvRecord& r, const std::set<std::string>& dd_at_s
                            (dd_at_start.count(s.dyndep) && d->producer < 0) || producer_ran_ok);
       if (level == 1 || certain) v.insert(v.end(), e->imp_ins.begin(), e->imp_ins.end());
     }
+    if (level == 2 && s.deps_kind >= 2 && !s.outs.empty()) {
+      // what the deps log holds for the statement when ninja starts
+      auto rec = r.deps_before.last.find(s.outs[0]);
+      if (rec != r.deps_before.last.end()) v.insert(v.end(), rec->second.deps.begin(), rec->second.deps.end());
+    }
     if (level == 1) {
       // what a command reports is the files it read: an alias among its hidden
       // includes shows up as the files behind it
@@ -597,6 +602,13 @@ void World::CheckCycles(const InvRecord& r, const std::set<std::string>& dd_at_s
   size_t at = all.find("dependency cycle: ");
   bool reported = at != std::string::npos;
   bool must = cyclic(0), may = cyclic(1);
+  // A cycle closed by dependencies the deps log already holds is certain too when ninja itself
+  // found nothing to do: every statement it needs was judged clean, so every record was loaded
+  // at the scan (a stale record makes its statement dirty) and the cycle was in the graph.
+  bool must_recorded = false;
+  if (!must && may && r.ok() && r.spawns.empty() && !r.plan.dry && r.deps_before.valid_header && r.deps_before.clean_eof)
+    must_recorded = cyclic(2);
+  if (must_recorded) { must = true; stats->n["cycle_through_recorded_deps_certain"]++; }
   if (may) stats->nontrivial["C17"] = true;
   if (!sc.stmts.empty()) for (const Stmt& s : sc.stmts) if (!s.validations.empty()) for (auto& v : s.validations) { int pv = sc.Producer(v); if (pv >= 0 && StmtClosure(pv).count(s.id)) stats->nontrivial["C17"] = true; }
   if (reported) {
